@@ -94,6 +94,13 @@ def systematic(tier):
         for t in CONTENT_TAGS:
             for first in CONTENT_ALPHABET:
                 out.append({'check': ID, 'exhaustive': True, 'content_of': t, 'decoder': dec, 'spec': None, 'first': first})
+    # character-form REALs (ISO 6093 NR1/NR2/NR3 and what Python's float() reads beyond them): every text of
+    # length <= 3 (quick) / 4 (thorough) over a 16-character alphabet after each of the form octets 00..03
+    for dec in ('ber', 'cer', 'der'):
+        for form in (0, 1, 2, 3):
+            for first in range(len(REAL_TEXT_ALPHABET)):
+                out.append({'check': ID, 'exhaustive': True, 'real_text': form, 'decoder': dec, 'spec': None,
+                            'first': first, 'max_len': 3 if tier == 'quick' else 4})
     # constructed strings: every list of at most two fragments (a fragment = right/wrong/nested identifier with
     # every content of length <= 2 over a small alphabet, or an empty nested constructed fragment), in the
     # definite and the indefinite form, for three string types, with and without the type as guide
@@ -107,6 +114,14 @@ def systematic(tier):
 
 
 FRAG_ALPHABET = [0x00, 0x01, 0x07, 0x08, 0x80, 0xff]
+REAL_TEXT_ALPHABET = b'0159.,eE+- naifx_'
+
+
+def _real_text_strings(form, first, max_len):
+    for n in range(0, max_len):
+        for rest in itertools.product(REAL_TEXT_ALPHABET, repeat=n):
+            body = bytes([form, REAL_TEXT_ALPHABET[first]]) + bytes(rest)
+            yield bytes([0x09, len(body)]) + body
 
 
 def _fragment_strings(t, form):
@@ -307,7 +322,9 @@ def _exhaustive(plan):
     dec = U.decoder_module(plan['decoder'])
     spec = U.build_schema(plan['spec']) if plan['spec'] is not None else None
     first = plan['first']
-    if plan.get('fragments_of') is not None:
+    if plan.get('real_text') is not None:
+        strings = _real_text_strings(plan['real_text'], first, plan.get('max_len', 3))
+    elif plan.get('fragments_of') is not None:
         strings = _fragment_strings(plan['fragments_of'], plan['form'])
         if plan.get('guided'):
             spec = U.build_schema(_fragment_spec(plan['fragments_of']))
